@@ -382,7 +382,7 @@ def step (c : Cfg) (s : St) : Step → St × Except Exn Unit
   | .doer t =>
     if s.opened then close c s s.temp
     else match reopen c s false false false t none with
-      | (s1, .error e) => (s1, .error e)
+      | (s1, .error e) => ((close c s1 s1.temp).1, .error e)      -- the scheduler runs the doer's `exit` also when `enter` raised
       | (s1, .ok _) => close c s1 s1.temp
 
 /-- `Filer(name=…, base=…, clean=…, reopen=True)`: a name or base that is not path-like raises `TypeError` in
